@@ -323,7 +323,7 @@ def _job(job):
     st = explorer.explore(factory, case, bound, max_execs=max_execs, max_passes=400, on_exec=on_exec)
     part.count("choice_points", st["choice_points"])
     if st["truncated"]:
-        part.cap(f"execution cap {max_execs} hit for {case} at bound {bound}")
+        part.cap(f"execution cap {max_execs} hit for {case} at bound {bound} (complete up to bound {st['completed_bound']}, {st['executions']} executions reported)")
     part.sample({"case": case, "bound": bound, "executions": st["executions"]})
     return part
 
